@@ -250,7 +250,9 @@ class Signal(np.lib.mixins.NDArrayOperatorsMixin):
     def sample_rate(self, sample_rate):
         try:
             temp = sample_rate.to(u.Hz)
-            assert temp.isscalar and temp > 0
+            value = temp.value.astype(np.float64)
+            if not (temp.isscalar and np.isrealobj(temp.value) and value > 0):
+                raise ValueError
         except Exception:
             raise ValueError(
                 "Invalid sample_rate. Must be a positive scalar "
@@ -280,7 +282,8 @@ class Signal(np.lib.mixins.NDArrayOperatorsMixin):
             temp = None
             if start_time is not None:
                 temp = Time(start_time, format="isot", precision=9)
-                assert temp.isscalar
+                if not temp.isscalar:
+                    raise ValueError
         except Exception:
             err = "Invalid start_time. Must be a scalar astropy Time object."
             raise ValueError(err)
@@ -523,7 +526,8 @@ class RadioSignal(Signal):
     def center_freq(self, center_freq):
         try:
             temp = center_freq.to(u.Hz)
-            assert temp.isscalar
+            if not (temp.isscalar and np.isrealobj(temp.value)):
+                raise ValueError
         except Exception:
             raise ValueError(
                 "Invalid center_freq. Must be a scalar "
@@ -546,7 +550,9 @@ class RadioSignal(Signal):
     def chan_bw(self, chan_bw):
         try:
             temp = chan_bw.to(u.Hz)
-            assert temp.isscalar and temp > 0
+            value = temp.value.astype(np.float64)
+            if not (temp.isscalar and np.isrealobj(temp.value) and value > 0):
+                raise ValueError
         except Exception:
             raise ValueError(
                 "Invalid chan_bw. Must be a positive scalar "
@@ -572,7 +578,7 @@ class RadioSignal(Signal):
 
     @freq_align.setter
     def freq_align(self, freq_align):
-        if freq_align in {"bottom", "center", "top"}:
+        if isinstance(freq_align, str) and freq_align in {"bottom", "center", "top"}:
             self._freq_align = "center" if self.nchan % 2 else freq_align
         else:
             choices = "{'bottom', 'center', 'top'}"
@@ -886,7 +892,7 @@ class DualPolarizationSignal(BasebandSignal):
 
     @pol_type.setter
     def pol_type(self, pol_type):
-        if pol_type in {"linear", "circular"}:
+        if isinstance(pol_type, str) and pol_type in {"linear", "circular"}:
             self._pol_type = pol_type
         else:
             raise ValueError("pol_type must be in {'linear', 'circular'}")
